@@ -258,3 +258,236 @@ func (sdt *SDT) FinalizeTOCSDT() {
 	}
 	sdt.Content.Elements = append(sdt.Content.Elements, bookmarkEnd)
 }
+
+// parseSDT 解析结构化文档标签
+func (d *Document) parseSDT(decoder *xml.Decoder, startElement xml.StartElement) (*SDT, error) {
+	sdt := &SDT{}
+
+	for {
+		token, err := decoder.Token()
+		if err != nil {
+			return nil, WrapError("parse_sdt", err)
+		}
+
+		switch t := token.(type) {
+		case xml.StartElement:
+			switch t.Name.Local {
+			case "sdtPr":
+				properties, err := d.parseSDTProperties(decoder)
+				if err != nil {
+					return nil, err
+				}
+				sdt.Properties = properties
+			case "sdtEndPr":
+				endPr, err := d.parseSDTEndProperties(decoder)
+				if err != nil {
+					return nil, err
+				}
+				sdt.EndPr = endPr
+			case "sdtContent":
+				content, err := d.parseSDTContent(decoder)
+				if err != nil {
+					return nil, err
+				}
+				sdt.Content = content
+			default:
+				if err := d.skipElement(decoder, t.Name.Local); err != nil {
+					return nil, err
+				}
+			}
+		case xml.EndElement:
+			if t.Name.Local == "sdt" {
+				return sdt, nil
+			}
+		}
+	}
+}
+
+// parseSDTProperties 解析SDT属性
+func (d *Document) parseSDTProperties(decoder *xml.Decoder) (*SDTProperties, error) {
+	properties := &SDTProperties{}
+
+	for {
+		token, err := decoder.Token()
+		if err != nil {
+			return nil, WrapError("parse_sdt_properties", err)
+		}
+
+		switch t := token.(type) {
+		case xml.StartElement:
+			switch t.Name.Local {
+			case "rPr":
+				holder := &Run{}
+				if err := d.parseRunProperties(decoder, holder); err != nil {
+					return nil, err
+				}
+				properties.RunPr = holder.Properties
+			case "id":
+				properties.ID = &SDTID{Val: getAttributeValue(t.Attr, "val")}
+				if err := d.skipElement(decoder, t.Name.Local); err != nil {
+					return nil, err
+				}
+			case "color":
+				properties.Color = &SDTColor{Val: getAttributeValue(t.Attr, "val")}
+				if err := d.skipElement(decoder, t.Name.Local); err != nil {
+					return nil, err
+				}
+			case "docPartObj":
+				docPartObj, err := d.parseDocPartObj(decoder)
+				if err != nil {
+					return nil, err
+				}
+				properties.DocPartObj = docPartObj
+			case "placeholder":
+				placeholder, err := d.parseSDTPlaceholder(decoder)
+				if err != nil {
+					return nil, err
+				}
+				properties.Placeholder = placeholder
+			default:
+				if err := d.skipElement(decoder, t.Name.Local); err != nil {
+					return nil, err
+				}
+			}
+		case xml.EndElement:
+			if t.Name.Local == "sdtPr" {
+				return properties, nil
+			}
+		}
+	}
+}
+
+// parseDocPartObj 解析文档部件对象
+func (d *Document) parseDocPartObj(decoder *xml.Decoder) (*DocPartObj, error) {
+	docPartObj := &DocPartObj{}
+
+	for {
+		token, err := decoder.Token()
+		if err != nil {
+			return nil, WrapError("parse_doc_part_obj", err)
+		}
+
+		switch t := token.(type) {
+		case xml.StartElement:
+			switch t.Name.Local {
+			case "docPartGallery":
+				docPartObj.DocPartGallery = &DocPartGallery{Val: getAttributeValue(t.Attr, "val")}
+				if err := d.skipElement(decoder, t.Name.Local); err != nil {
+					return nil, err
+				}
+			case "docPartUnique":
+				docPartObj.DocPartUnique = &DocPartUnique{}
+				if err := d.skipElement(decoder, t.Name.Local); err != nil {
+					return nil, err
+				}
+			default:
+				if err := d.skipElement(decoder, t.Name.Local); err != nil {
+					return nil, err
+				}
+			}
+		case xml.EndElement:
+			if t.Name.Local == "docPartObj" {
+				return docPartObj, nil
+			}
+		}
+	}
+}
+
+// parseSDTPlaceholder 解析SDT占位符
+func (d *Document) parseSDTPlaceholder(decoder *xml.Decoder) (*SDTPlaceholder, error) {
+	placeholder := &SDTPlaceholder{}
+
+	for {
+		token, err := decoder.Token()
+		if err != nil {
+			return nil, WrapError("parse_sdt_placeholder", err)
+		}
+
+		switch t := token.(type) {
+		case xml.StartElement:
+			switch t.Name.Local {
+			case "docPart":
+				placeholder.DocPart = &DocPart{Val: getAttributeValue(t.Attr, "val")}
+				if err := d.skipElement(decoder, t.Name.Local); err != nil {
+					return nil, err
+				}
+			default:
+				if err := d.skipElement(decoder, t.Name.Local); err != nil {
+					return nil, err
+				}
+			}
+		case xml.EndElement:
+			if t.Name.Local == "placeholder" {
+				return placeholder, nil
+			}
+		}
+	}
+}
+
+// parseSDTEndProperties 解析SDT结束属性
+func (d *Document) parseSDTEndProperties(decoder *xml.Decoder) (*SDTEndPr, error) {
+	endPr := &SDTEndPr{}
+
+	for {
+		token, err := decoder.Token()
+		if err != nil {
+			return nil, WrapError("parse_sdt_end_properties", err)
+		}
+
+		switch t := token.(type) {
+		case xml.StartElement:
+			switch t.Name.Local {
+			case "rPr":
+				holder := &Run{}
+				if err := d.parseRunProperties(decoder, holder); err != nil {
+					return nil, err
+				}
+				endPr.RunPr = holder.Properties
+			default:
+				if err := d.skipElement(decoder, t.Name.Local); err != nil {
+					return nil, err
+				}
+			}
+		case xml.EndElement:
+			if t.Name.Local == "sdtEndPr" {
+				return endPr, nil
+			}
+		}
+	}
+}
+
+// parseSDTContent 解析SDT内容：正文层级的元素，以及目录条目占位符里直接写出的文本运行
+func (d *Document) parseSDTContent(decoder *xml.Decoder) (*SDTContent, error) {
+	content := &SDTContent{Elements: []interface{}{}}
+
+	for {
+		token, err := decoder.Token()
+		if err != nil {
+			return nil, WrapError("parse_sdt_content", err)
+		}
+
+		switch t := token.(type) {
+		case xml.StartElement:
+			switch t.Name.Local {
+			case "r":
+				run, err := d.parseRun(decoder, t)
+				if err != nil {
+					return nil, err
+				}
+				content.Elements = append(content.Elements, *run)
+			default:
+				element, err := d.parseBodySubElement(decoder, t)
+				if err != nil {
+					return nil, err
+				}
+				if element != nil {
+					content.Elements = append(content.Elements, element)
+				}
+			}
+		case xml.EndElement:
+			if t.Name.Local == "sdtContent" {
+				return content, nil
+			}
+		}
+	}
+}
